@@ -171,6 +171,7 @@ FEATURES = [
     # attribute lists
     "attr-required", "attr-default", "attr-fixed", "attr-default-special", "attr-id-idref", "attr-nmtoken", "attr-nmtokens-default", "attr-enum",
     "attr-enum-default", "attr-enum-fixed", "attr-child-default", "attr-enum-two-elements", "attr-xml-lang", "attr-default-empty", "attr-foreign-prefixes", "attr-enum-single",
+    "attr-names-collide-three", "attr-enum-collide-three",
     # xmlns declarations
     "xmlns-default-root", "xmlns-default-all", "xmlns-prefix-root", "xmlns-prefix-all",
 ]
@@ -276,6 +277,11 @@ def apply_feature(d: Dtd, feat: str) -> None:
     elif feat == "attr-enum-single":
         root.attrs.append(AttDef("flag", "ENUM", "IMPLIED", enum=["yes"]))
         d.elems["a"].attrs.append(AttDef("once", "ENUM", "IMPLIED", enum=["only"]))
+    elif feat == "attr-names-collide-three":
+        # three names that become one Python identifier
+        root.attrs += [AttDef("k-v", "CDATA", "IMPLIED"), AttDef("k_v", "CDATA", "IMPLIED"), AttDef("k.v", "CDATA", "IMPLIED")]
+    elif feat == "attr-enum-collide-three":
+        root.attrs.append(AttDef("kind", "ENUM", "IMPLIED", enum=["a-b", "a_b", "a.b"]))
     elif feat == "recursion":
         d.decl("sec", Grp("seq", [Name("a"), Name("sec", "*")]), [AttDef("lvl", "CDATA", "IMPLIED")])
         seq.items.append(Name("sec", "*"))
@@ -362,8 +368,8 @@ def content_order_class(c) -> str:
     """single : repetition (* +) is applied to single element names only -> order demanded under every option set
     choice : ... or to choices of single element names (mixed content and ANY are such choices) -> order demanded with compound fields
     none   : sequences / choices of groups repeat -> only the multiset of children is demanded.
-    A name that occurs twice in one content model, e.g. (a, b?, a), is put into 'none' as well: the property speaks of repetition
-    operators only, and the two occurrences necessarily share one list field whose position in the class is fixed."""
+    A name that occurs twice in one content model, e.g. (a, b?, a), is put into 'choice': without compound fields the two occurrences
+    necessarily share one list field whose position in the class is fixed, with compound fields the generator keeps their positions."""
     if c in (EMPTY, PCDATA):
         return "single"
     if c == ANY:
@@ -388,8 +394,8 @@ def content_order_class(c) -> str:
         return worst
 
     k = walk(c)
-    if len(set(names)) != len(names):
-        k = "none"
+    if len(set(names)) != len(names) and ORDER_RANK[k] < ORDER_RANK["choice"]:
+        k = "choice"
     return k
 
 
